@@ -57,7 +57,12 @@ RULE = ('histories of 2..14 attach/detach operations over the 31 names of a dept
         'ForwardingHint naming another prefix of the tree, ApplicationParameters (empty and non-empty, digest component in '
         'the name) with a validator that takes up to lifetime+50 ms; reply twice at one instant; reply closures used '
         'after later Interests and after detach / re-attach of their prefix (deferred replies); PIT tokens on the legacy '
-        'front-end. non-trivial = at least one Interest chose between two or more attached prefixes of its name; '
+        'front-end. Round 11: SIZE of the Interest (ApplicationParameters of 1 octet .. 70000 octets around 2 / 4 / 8 / 64 KiB '
+        'and the 8800-octet packet size; names with 40..120 components or components of 300 / 3000 octets); every step the '
+        'library hands to loop.run_in_executor (any executor) takes a scripted virtual time (1 ms .. lifetime+50 ms) while '
+        'the Interest is on its way - together with the slow validators every awaited step between the ARRIVAL of the '
+        'Interest and its handler takes time, and the lifetime is counted from the arrival (replies at lifetime+1, '
+        'delay+lifetime-1, delay+lifetime, ...). non-trivial = at least one Interest chose between two or more attached prefixes of its name; '
         'distinct = distinct cases')
 
 LABELS = ['a', 'ab']
@@ -74,6 +79,8 @@ REPRS = ['uri', 'uri-pct', 'uri-pctl', 'strlist', 'byteslist', 'balist', 'mvlist
 # 'romvlist' / 'wire-romv': read-only views of buffers the caller goes on writing to (memoryview(bytearray).toreadonly()).
 # The unchanged library kept such views as trie keys (fixed in /repo, see known_findings.txt); they are part of the stream.
 REPRS = REPRS + ['romvlist', 'wire-romv']
+APP_SIZES = [1, 200, 252, 253, 1024, 2047, 2048, 2049, 4095, 4096, 4097, 8192, 8800, 16384, 65535, 65536, 70000]
+LONG_TAILS = [['z' * 300], ['z'] * 40, ['z' * 3000], ['32=' + 'z' * 253, 'z' * 65], ['q%d' % i for i in range(70)]]
 RX_FORMS = ['ba', 'mv', 'rwmv']      # buffer class in which the face hands an Interest to the application (absent = bytes)
 
 
@@ -175,18 +182,29 @@ def iopts(ev):
     return ev[7] if len(ev) > 7 and ev[7] else {}
 
 
+def app_bytes(o):
+    """the ApplicationParameters of an Interest (None = absent): 'app' = hex text; 'appn' = [size, seed octet], a large
+    block written compactly (octet i is (seed + (i % 256) * 131) % 256)"""
+    if o.get('app') is not None:
+        return bytes.fromhex(o['app'])
+    if o.get('appn') is not None:
+        n, b = o['appn']
+        return bytes((b + i * 131) & 0xff for i in range(256)) * (n // 256) + bytes((b + i * 131) & 0xff for i in range(n % 256))
+    return None
+
+
 def hand_built(ev):
     o = iopts(ev)
-    return any(k in o for k in ('cbp', 'mbf', 'hop', 'hint', 'app'))
+    return any(k in o for k in ('cbp', 'mbf', 'hop', 'hint', 'app', 'appn'))
 
 
 def interest_name_hex(ev):
     """component hex list of the name the Interest carries on the wire (ApplicationParameters add the digest component)"""
     import hashlib
     comps = path_hex(ev[1])
-    app = iopts(ev).get('app')
+    app = app_bytes(iopts(ev))
     if app is not None:
-        comps = comps + [tlv(2, hashlib.sha256(tlv(0x24, bytes.fromhex(app))).digest()).hex()]
+        comps = comps + [tlv(2, hashlib.sha256(tlv(0x24, app)).digest()).hex()]
     return comps
 
 
@@ -205,8 +223,8 @@ def build_interest(ev):
         body += tlv(0x0c, _nonneg(ev[3]))
     if o.get('hop') is not None:
         body += tlv(0x22, bytes([o['hop']]))
-    if o.get('app') is not None:
-        body += tlv(0x24, bytes.fromhex(o['app']))
+    if app_bytes(o) is not None:
+        body += tlv(0x24, app_bytes(o))
     return tlv(5, body)
 
 
@@ -264,6 +282,27 @@ def _interest(rng, fe, path, env=None):
                     k = rng.randrange(2, 6)
                     ev[6] = [[rng.choice([0, L, L + 1, o['vdelay'] + L - 1, o['vdelay'] + L]),
                               ('06%02x' % (2 + k)) + '0700' + '%02x' % rng.randrange(256) * k]]
+    L = 4000 if lifetime is None else lifetime
+    if 'app' not in o and rng.random() < 0.07:
+        # SIZE of the Interest: ApplicationParameters of up to 64 KiB and a little more (around 2 KiB, 4 KiB, 8 KiB, the
+        # 8800-byte packet size, 64 KiB): whatever its size, an Interest goes to the handler of its longest prefix and
+        # may be answered for exactly its lifetime
+        o['appn'] = [rng.choice(APP_SIZES), rng.randrange(256)]
+        if fe == 'v2' and not ev[6] and rng.random() < 0.6:
+            ev[6] = _replies(rng, lifetime)
+        if fe == 'v2' and 'vdelay' not in o and rng.random() < 0.25:
+            o['vdelay'] = rng.choice([1, 5, max(1, L - 1), max(1, L), L + 1, L + 50])
+    if fe != 'disp' and rng.random() < (0.6 if 'appn' in o else 0.3 if 'app' in o else 0.06):
+        # the event loop's executor is busy: whatever the library hands to loop.run_in_executor (any executor) while this
+        # Interest is on its way to the handler completes only xd ms later - the Interest's lifetime keeps counting from
+        # its ARRIVAL, however long the steps between arrival and handler take
+        o['xd'] = rng.choice([1, 5, 50, max(1, L - 1), max(1, L), L + 1, L + 50])
+        if fe == 'v2' and rng.random() < 0.8:
+            k = rng.randrange(2, 6)
+            x, v = o['xd'], o.get('vdelay', 0)
+            offs = rng.choice([[L + 1], [L, L + 1], [x + L], [x + L - 1], [x + v + L], [2 * x + L], [0, x + L + 1],
+                               [max(0, L - 1), L + 1, x + L]])
+            ev[6] = [[f, ('06%02x' % (2 + k)) + '0700' + '%02x' % rng.randrange(256) * k] for f in offs]
     if fe != 'disp' and rng.random() < 0.15:
         o['rx'] = rng.choice(RX_FORMS)
     if o:
@@ -285,6 +324,8 @@ def _sweep(rng, fe, tree, frac=1.0, env=None):
             p = p + [rng.choice(sibs)]                             # below a tree name
         else:
             p = p + [rng.choice(labels), rng.choice(sibs)][:max(0, 6 - len(p))]
+        if rng.random() < 0.05:
+            p = p + rng.choice(LONG_TAILS)                        # LONG names: many / long components below the tree
         sib.append(p)
     names = names + sib
     rng.shuffle(names)
@@ -475,6 +516,35 @@ def shrink(case):
 
 # -------------------------------------------------------------------------------- implementation
 VDELAY = {'ms': 0}      # how long the (accepting) validators take for the Interest being delivered
+XDELAY = {'ms': 0}      # how long anything handed to loop.run_in_executor takes while that Interest is on its way
+DUE = []                # virtual instants (ms) at which the scripted steps that were started will have finished
+
+
+def script_executor(rig):
+    """Under the virtual-time loop no real time passes, so work handed to a thread pool would look instantaneous (and its
+    completion, posted with call_soon_threadsafe, would land at an arbitrary later step). Every loop.run_in_executor
+    (any executor; asyncio.to_thread goes through it too) becomes a scripted step instead: the function runs on the loop
+    XDELAY ms of virtual time later (a thread hop = one loop iteration when 0) and its result / exception completes
+    the future."""
+    loop = rig.loop
+
+    def run_in_executor(executor, func, *args):
+        fut = loop.create_future()
+
+        def done():
+            if fut.cancelled():
+                return
+            try:
+                fut.set_result(func(*args))
+            except Exception as e:      # noqa
+                fut.set_exception(e)
+        if XDELAY['ms']:
+            DUE.append(rig.now_ms() + XDELAY['ms'])
+            loop.call_later(XDELAY['ms'] / 1000.0, done)
+        else:
+            loop.call_soon(done)
+        return fut
+    loop.run_in_executor = run_in_executor
 
 
 def _mkval(fe, tag):
@@ -484,6 +554,7 @@ def _mkval(fe, tag):
 
         async def v(name, sig, ctx):
             if VDELAY['ms']:
+                DUE.append(int(asyncio.get_running_loop().time() * 1000) + VDELAY['ms'])
                 await asyncio.sleep(VDELAY['ms'] / 1000.0)
             return types.ValidResult.PASS
     else:
@@ -553,6 +624,7 @@ def run_impl(case):
         # Interest lifetimes of 2^32 ms take the clock to 10^7 s, where the loop's default resolution (1 ns) is below
         # one ulp and a timer due exactly now would never be run
         rig.loop._clock_resolution = 1e-6
+        script_executor(rig)
         mk = mk_v2 if fe == 'v2' else mk_v1
         if fe == 'v1':
             # what main_loop() sets up before any route can be registered
@@ -692,19 +764,30 @@ def run_impl(case):
                 pkt = wire if tok is None else tlv(0x64, tlv(0x62, bytes.fromhex(tok)) + tlv(0x50, wire))
                 n_sent = len(rig.face.sent)
                 VDELAY['ms'] = iopts(ev).get('vdelay', 0) if fe == 'v2' else 0
+                XDELAY['ms'] = iopts(ev).get('xd', 0)
+                del DUE[:]
                 rx = iopts(ev).get('rx')
                 buf = pkt if rx is None else bytearray(pkt) if rx == 'ba' else memoryview(pkt) if rx == 'mv' else \
                     memoryview(bytearray(pkt))
                 try:
                     rig.deliver(buf, rig._typ(pkt))
-                    if VDELAY['ms'] and not calls:
-                        # the validator of the prefix is still at work: the handler runs when it has finished; the
-                        # lifetime of the Interest keeps counting from its arrival
-                        now_ms += VDELAY['ms']
+                    n_arrival = len(rig.face.sent)
+                    for _ in range(64):
+                        # steps between arrival and handler are still at work (the validator of the prefix, anything
+                        # the library handed to an executor): the handler runs when they have finished, one after the
+                        # other; the lifetime of the Interest keeps counting from its arrival
+                        ahead = [d for d in DUE if d > now_ms]
+                        if calls or not ahead:
+                            break
+                        now_ms = min(ahead)
                         set_clock(now_ms)
                 finally:
                     VDELAY['ms'] = 0
-                rec['sent_on_delivery'] = [b.hex() for b in rig.face.sent[n_sent:]]
+                    XDELAY['ms'] = 0
+                # legacy front-end: its register() / unregister() coroutines keep command Interests to the forwarder in
+                # flight (sent again as time passes); what goes out at LATER instants while an offloaded step of this
+                # Interest is awaited is theirs, not this Interest's (time never passed here on this front-end before)
+                rec['sent_on_delivery'] = [b.hex() for b in rig.face.sent[n_sent:(n_arrival if fe == 'v1' else None)]]
             rec['calls'] = [[h, nm] for h, nm, _, _ in calls]
             if calls and fe != 'disp':
                 reply = calls[0][2] if fe == 'v2' else rig.app.put_raw_packet
@@ -1013,8 +1096,15 @@ def tags(case, impl):
                     t.append('slow-validator:' + ('handler-ran-late' if ev[7][k] > L else 'in-time'))
                 elif k == 'rx':
                     t.append('rx:' + ev[7][k])
+                elif k == 'appn':
+                    n = ev[7][k][0]
+                    t.append('interest-app-size:' + ('<2048' if n < 2048 else '<8192' if n < 8192 else '<65536' if n < 65536 else '>=65536'))
+                elif k == 'xd':
+                    t.append('executor-busy:' + ('longer-than-lifetime' if ev[7][k] > L else 'within-lifetime'))
                 elif k != 'id':
                     t.append('interest-' + k + ('-empty' if k == 'app' and ev[7][k] == '' else ''))
+            if len(ev[1]) > DEPTH + 2 or any(len(x) > 100 for x in ev[1]):
+                t.append('long-name')
             if ev[3] is not None and ev[3] >= 255 and ev[3] not in (4000, 60000):
                 t.append('lifetime-boundary:%d' % ev[3])
     return t
